@@ -79,6 +79,8 @@ func (p *Proxy) Run(address string) error {
 
 // ServeHTTP handle one Proxy request
 func (p *Proxy) ServeHTTP(w http.ResponseWriter, r *http.Request) {
+	cw := &countWriter{ResponseWriter: w}
+	w = cw
 	proxyTotal.WithLabelValues().Inc()
 	stopReason := p.getCurCfg().ExtraConfig.StopScrapeReason
 
@@ -118,6 +120,13 @@ func (p *Proxy) ServeHTTP(w http.ResponseWriter, r *http.Request) {
 			tar.ScrapeTimes++
 			tar.SetScrapeErr(start, scrapErr)
 		}
+
+		if scrapErr != nil && cw.written > 0 {
+			// part of the body already went out with status 200, the status code can
+			// not be changed any more: abort the response so that prometheus does not
+			// take the truncated data as a successful scrape
+			panic(http.ErrAbortHandler)
+		}
 	}()
 
 	scraper := scrape.NewScraper(jobInfo, realURL.String(), p.log)
@@ -148,6 +157,19 @@ func (p *Proxy) ServeHTTP(w http.ResponseWriter, r *http.Request) {
 	if tar != nil {
 		tar.UpdateScrapeResult(rs)
 	}
+}
+
+// countWriter counts the body bytes written to the client
+type countWriter struct {
+	http.ResponseWriter
+	written int
+}
+
+// Write implement io.Writer
+func (c *countWriter) Write(p []byte) (int, error) {
+	n, err := c.ResponseWriter.Write(p)
+	c.written += n
+	return n, err
 }
 
 func translateURL(u url.URL) (job string, hash string, realURL url.URL) {
